@@ -1,6 +1,7 @@
 import NrDaemon.Model.Respawn
 import NrDaemon.Model.PidFile
 import NrDaemon.Gen.Watcher
+import NrDaemon.Gen.Worker
 /-!
   C20 — crashed workers are respawned; only one daemon owns a pid file.
   (Part 1: the respawn decision.  Part 2: the pid-file machine and the watcher's signal channel.)
@@ -431,3 +432,9 @@ theorem C20_sources_tied :
       "f.Close", "return", "return", "return"] ∧
     Gen.Watcher.removeCalls = ["os.Remove", "f.file.Name", "return", "return", "f.file.Close"] := by
   decide
+
+/-- **C20 (tie: a crashed component asks for a respawn).**  The worker's crash guard reports `Respawn: true`, which
+`runWorker` turns into exit status 3 (no respawn: 1) — and 3 ≥ 2 is "abnormal" for `ShouldRespawn` (`C20_respawn_table`). -/
+theorem C20_crash_exit_status_tied :
+    Gen.Worker.crashGuard = "Respawn:true" ∧ Gen.Worker.onError = ["setExitStatus(3)", "setExitStatus(1)"] ∧
+    Gen.Respawn.shouldRespawn 3 true 0 false false = true ∧ Gen.Respawn.shouldRespawn 1 true 0 false false = false := by decide
